@@ -934,6 +934,8 @@ class Run:
         b = self.pick(a1, lambda e: e["cls"] == "B" and self.usable(e) and len(e["obj"].tags) > 0)
         if b is None:
             return "skip"
+        if "delete-orphan" in self.U["cfg"]["bs"] and OS.loaded(b["obj"], "a") == (True, None):
+            return "skip"      # R1: an orphan is deleted by the next (auto)flush - also by the one a lazy load of T.bs starts with
         t = b["obj"].tags[a2 % len(b["obj"].tags)]
         how = (a2 // 8) % 8
         if how >= 5:
